@@ -323,6 +323,9 @@ enum EvSpec {
     Other,
     /// the event, but `out` accepts only this many bytes and then fails
     Failing(Box<EvSpec>, usize),
+    /// not a handler call: NOW take `images[k].crop(r0..r1, c0..c1)` and append it to the list of images
+    /// (images derived from an image that the handler may already have seen)
+    Derive(usize, usize, usize, usize, usize),
 }
 
 impl EvSpec {
@@ -341,6 +344,7 @@ impl EvSpec {
     fn to_json(&self) -> Value {
         match self {
             EvSpec::Failing(inner, k) => json!(["w", k, inner.to_json()]),
+            EvSpec::Derive(k, r0, r1, c0, c1) => json!(["c", k, r0, r1, c0, c1]),
             EvSpec::Draw(k, r, c) => json!(["d", k, r, c]),
             EvSpec::Erase(k, Some((r, c))) => json!(["e", k, r, c]),
             EvSpec::Erase(k, None) => json!(["e", k]),
@@ -356,6 +360,7 @@ impl EvSpec {
             "d" => EvSpec::Draw(n(1)?, n(2)?, n(3)?),
             "e" if a.len() == 4 => EvSpec::Erase(n(1)?, Some((n(2)?, n(3)?))),
             "e" => EvSpec::Erase(n(1)?, None),
+            "c" => EvSpec::Derive(n(1)?, n(2)?, n(3)?, n(4)?, n(5)?),
             "w" => EvSpec::Failing(Box::new(EvSpec::from_json(&a[2])?), n(1)?),
             "rf" => EvSpec::RespForeign(a[1].as_i64().filter(|j| *j >= 0).map(|j| j as usize), a[2].as_str()?.parse().ok()?),
             "r" => EvSpec::Resp(a[1].as_i64().filter(|j| *j >= 0).map(|j| j as usize), a[2].as_bool()?, a[3].as_bool()?),
@@ -465,7 +470,7 @@ struct StepOut {
 }
 
 /// run a history on a fresh `KittyImageHandler`
-fn run_impl(hist: &History, imgs: &[Image]) -> Result<Vec<StepOut>, &'static str> {
+fn run_impl(hist: &History, imgs: &mut Vec<Image>) -> Result<Vec<StepOut>, &'static str> {
     // ---- run the implementation -------------------------------------------------------------
     let mut handler = if hist.quiet { KittyImageHandler::new().quiet() } else { KittyImageHandler::new() };
     let mut steps: Vec<StepOut> = Vec::new();
@@ -475,6 +480,14 @@ fn run_impl(hist: &History, imgs: &[Image]) -> Result<Vec<StepOut>, &'static str
         let mut wr = Limited { buf: Vec::new(), budget: ev.budget(), refused: false };
         let ev = ev.base();
         let mut resp = None;
+        if let EvSpec::Derive(k, r0, r1, c0, c1) = ev {
+            let parent = imgs.get(*k).ok_or("derive refers to an image that does not exist yet")?;
+            let d = guarded(|| parent.crop(*r0..*r1, *c0..*c1)).map_err(|_| "Image::crop panicked")?;
+            imgs.push(d);
+            observed.push(None);
+            steps.push(StepOut { err: false, truncated: false, bytes: Vec::new(), handled: None, resp: None });
+            continue;
+        }
         // outer Err: panic; inner Err: the handler returned an error
         let r: Result<Result<Option<bool>, ()>, ()> = match ev {
             EvSpec::Draw(k, row, col) => guarded(|| {
@@ -501,7 +514,7 @@ fn run_impl(hist: &History, imgs: &[Image]) -> Result<Vec<StepOut>, &'static str
                 guarded(|| handler.handle(&mut wr, &event).map(Some).map_err(|_| ()))
             }
             EvSpec::Other => guarded(|| handler.handle(&mut wr, &TerminalEvent::Wake).map(Some).map_err(|_| ())),
-            EvSpec::Failing(..) => unreachable!(),
+            EvSpec::Failing(..) | EvSpec::Derive(..) => unreachable!(),
         };
         let (handled, err) = match r {
             Ok(Ok(h)) => (h, false),
@@ -565,27 +578,13 @@ impl<'a> Runner<'a> {
     /// run one history on the implementation; correspondence + both oracles. Returns false on failure.
     fn history(&mut self, hist: &History, lean_oracle: bool) -> bool {
         let input = json!({"history": hist.to_json()});
-        let imgs: Vec<Image> = match guarded(|| hist.imgs.iter().map(|s| s.build()).collect::<Vec<_>>()) {
+        let mut imgs: Vec<Image> = match guarded(|| hist.imgs.iter().map(|s| s.build()).collect::<Vec<_>>()) {
             Ok(v) => v,
             Err(()) => {
                 self.out.fail("panic while building the image", input, json!("no panic"), json!("panic"));
                 return false;
             }
         };
-        // contents: the harness' intention, cross-checked with Surface::get
-        let mut contents = Vec::new();
-        for (spec, img) in hist.imgs.iter().zip(imgs.iter()) {
-            let by_get = content_of(img);
-            if by_get != spec.intended() {
-                // Shape::view / transpose territory (C07); judge C11 against what the image itself says it holds
-                self.out.hist("note:view-differs-from-intended-window");
-                if std::env::var("C11_DEBUG").is_ok() {
-                    eprintln!("DIFF spec={:?} get=({},{},{}) intended=({},{},{})", (spec.ph, spec.pw, spec.transpose, spec.crop, spec.via), by_get.0, by_get.1, by_get.2.len(), spec.intended().0, spec.intended().1, spec.intended().2.len());
-                }
-            }
-            contents.push(by_get);
-        }
-        let hashes: Vec<u64> = imgs.iter().map(|i| Surface::hash(i)).collect();
         // Shape::view / transpose, as far as the hypotheses of the theorems rest on them (WF of cropped images)
         for spec in hist.imgs.iter() {
             let show = |s: Shape| format!("{} {} {} {} {} {}", s.start, s.end, s.width, s.height, s.row_stride, s.col_stride);
@@ -606,13 +605,42 @@ impl<'a> Runner<'a> {
         }
 
         // ---- run the implementation -------------------------------------------------------------
-        let steps = match run_impl(hist, &imgs) {
+        let steps = match run_impl(hist, &mut imgs) {
             Ok(s) => s,
             Err(what) => {
                 self.out.fail(what, input.clone(), json!("ok"), json!("panic/err"));
                 return false;
             }
         };
+        // contents of all images (the given ones and those derived during the history): the harness'
+        // intention from the raw pixels, cross-checked with Surface::get
+        let mut intended: Vec<(usize, usize, Vec<u8>)> = hist.imgs.iter().map(|s| s.intended()).collect();
+        for ev in hist.evs.iter() {
+            if let EvSpec::Derive(k, r0, r1, c0, c1) = ev.base() {
+                let (w, h, px) = intended[*k].clone();
+                let (r1, c1) = ((*r1).min(h), (*c1).min(w));
+                if *r0 < r1 && *c0 < c1 {
+                    let mut out = Vec::new();
+                    for r in *r0..r1 {
+                        out.extend_from_slice(&px[(r * w + *c0) * 4..(r * w + c1) * 4]);
+                    }
+                    intended.push((c1 - *c0, r1 - *r0, out));
+                } else {
+                    intended.push((0, 0, vec![]));
+                }
+            }
+        }
+        let mut contents = Vec::new();
+        for (want, img) in intended.iter().zip(imgs.iter()) {
+            let by_get = content_of(img);
+            if by_get != *want {
+                // Shape::view / transpose territory (C07); judge C11 against what the image itself says it holds
+                self.out.hist("note:view-differs-from-intended-window");
+            }
+            contents.push(by_get);
+        }
+        // hashes are read AFTER the history: what the handler saw is what a cache inside the image would hold
+        let hashes: Vec<u64> = imgs.iter().map(|i| Surface::hash(i)).collect();
 
         // ---- correspondence line -----------------------------------------------------------------
         let failing = hist.evs.iter().any(|e| e.budget().is_some());
@@ -632,6 +660,7 @@ impl<'a> Runner<'a> {
             let ev = ev.base();
             match ev {
                 EvSpec::Failing(..) => unreachable!(),
+                EvSpec::Derive(..) => {}
                 EvSpec::Draw(k, r, c) => req.push_str(&format!(" ev d {k} {r} {c}")),
                 EvSpec::Erase(k, Some((r, c))) => req.push_str(&format!(" ev e {k} {r} {c}")),
                 EvSpec::Erase(k, None) => req.push_str(&format!(" ev e {k} - -")),
@@ -648,7 +677,9 @@ impl<'a> Runner<'a> {
         }
         let answer: Vec<String> = steps
             .iter()
-            .map(|st| match (st.err, st.handled) {
+            .zip(hist.evs.iter())
+            .filter(|(_, ev)| !matches!(ev.base(), EvSpec::Derive(..)))
+            .map(|(st, _)| match (st.err, st.handled) {
                 (true, _) => format!("{}!", hex(&st.bytes)),
                 (false, None) => hex(&st.bytes),
                 (false, Some(h)) => format!("{}:{}", hex(&st.bytes), if h { "t" } else { "f" }),
@@ -677,6 +708,17 @@ impl<'a> Runner<'a> {
                 if contents[i] == contents[j] && !contents[i].2.is_empty() && hashes[i] != hashes[j] {
                     fail(self.out, "equal pixel content but different Surface::hash (the content would be transmitted twice)", 0,
                          json!({"images": [j, i], "hash": hashes[j].to_string()}), json!(hashes[i].to_string()));
+                    ok = false;
+                }
+            }
+        }
+        // ... and different pixel contents must not be taken for one another (equal 64-bit hashes of different
+        // contents do not happen by chance; equal 32-bit ids of different hashes may, see below)
+        for i in 0..contents.len() {
+            for j in 0..i {
+                if ok && contents[i] != contents[j] && !contents[i].2.is_empty() && !contents[j].2.is_empty() && hashes[i] == hashes[j] {
+                    fail(self.out, "different pixel contents have the same Surface::hash (one image is taken for the other: not transmitted, wrong pixels placed)", 0,
+                         json!({"images": [j, i], "sizes": [[contents[j].0, contents[j].1], [contents[i].0, contents[i].1]]}), json!(hashes[i].to_string()));
                     ok = false;
                 }
             }
@@ -901,7 +943,7 @@ impl<'a> Runner<'a> {
                         }
                     }
                 }
-                EvSpec::Other => {}
+                EvSpec::Other | EvSpec::Derive(..) => {}
                 EvSpec::Failing(..) => unreachable!(),
             }
         }
@@ -912,7 +954,7 @@ impl<'a> Runner<'a> {
             for (ev, st) in hist.evs.iter().zip(steps.iter()) {
                 let b = hex(&st.bytes);
                 match ev {
-                    EvSpec::Failing(..) => {}
+                    EvSpec::Failing(..) | EvSpec::Derive(..) => {}
                     EvSpec::Draw(k, r, c) => {
                         let ct = &contents[*k];
                         req.push_str(&format!(" D {} {} {} {r} {c} {b}", ct.0, ct.1, hex(&ct.2)));
@@ -964,13 +1006,19 @@ impl<'a> Runner<'a> {
                 self.out.hist("has-write-error");
             }
         }
+        if hist.evs.iter().any(|e| matches!(e.base(), EvSpec::Derive(..))) {
+            self.out.hist("has-crop-derived-during-history");
+        }
+        if hist.imgs.len() >= 300 {
+            self.out.hist("has-300+-images");
+        }
         if hist.imgs.len() >= 10 {
             self.out.hist("has-10+-images");
         }
         if contents.iter().any(|c| c.2.len() > 9216) {
             self.out.hist("has-4+-chunk-image");
         }
-        if (0..contents.len()).any(|i| (0..i).any(|j| contents[i] == contents[j] && !contents[i].2.is_empty() && (hist.imgs[i].ph, hist.imgs[i].pw, hist.imgs[i].transpose, hist.imgs[i].crop) != (hist.imgs[j].ph, hist.imgs[j].pw, hist.imgs[j].transpose, hist.imgs[j].crop))) {
+        if (0..hist.imgs.len()).any(|i| (0..i).any(|j| contents[i] == contents[j] && !contents[i].2.is_empty() && (hist.imgs[i].ph, hist.imgs[i].pw, hist.imgs[i].transpose, hist.imgs[i].crop) != (hist.imgs[j].ph, hist.imgs[j].pw, hist.imgs[j].transpose, hist.imgs[j].crop))) {
             self.out.hist("has-equal-content-different-layout");
         }
         if hist.evs.iter().any(|e| matches!(e.base(), EvSpec::Resp(_, _, true))) {
@@ -1127,6 +1175,84 @@ fn gen_twin_history(rng: &mut Rng) -> History {
     History { quiet: rng.chance(1, 4), imgs, evs }
 }
 
+/// crops taken from an image during the history — before and after the handler has seen (drawn, erased)
+/// the image they are taken from — and drawn / erased on the same handler
+fn gen_derive_history(rng: &mut Rng) -> History {
+    let base = loop {
+        let g = gen_image(rng, 10);
+        let (w, h, _) = g.intended();
+        if w * h >= 2 {
+            break g;
+        }
+    };
+    let mut dims = vec![{
+        let (w, h, _) = base.intended();
+        (w, h)
+    }];
+    let mut imgs = vec![base];
+    if rng.chance(1, 3) {
+        let g = gen_image(rng, 6);
+        let (w, h, _) = g.intended();
+        dims.push((w, h));
+        imgs.push(g);
+    }
+    let local = [(0usize, 0usize), (2, 5), (5, 2), (9, 9), (1, 7)];
+    let mut evs = Vec::new();
+    let mut draws = Vec::new();
+    for _ in 0..(4 + rng.below(9)) {
+        let k = rng.below(dims.len() as u64) as usize;
+        let p = *rng.pick(&local);
+        match rng.below(10) {
+            0..=3 => {
+                draws.push(evs.len());
+                evs.push(EvSpec::Draw(k, p.0, p.1));
+            }
+            4..=6 => {
+                let (w, h) = dims[k];
+                if w * h == 0 {
+                    continue;
+                }
+                let r0 = rng.below(h as u64) as usize;
+                let r1 = r0 + 1 + rng.below((h - r0) as u64) as usize;
+                let c0 = rng.below(w as u64) as usize;
+                let c1 = c0 + 1 + rng.below((w - c0) as u64) as usize;
+                evs.push(EvSpec::Derive(k, r0, r1, c0, c1));
+                dims.push((c1 - c0, r1 - r0));
+                // the fresh crop is used at once, more often than not
+                if rng.chance(2, 3) {
+                    draws.push(evs.len());
+                    evs.push(EvSpec::Draw(dims.len() - 1, p.0, p.1));
+                }
+            }
+            7..=8 => evs.push(EvSpec::Erase(k, if rng.chance(1, 4) { None } else { Some(p) })),
+            _ => {
+                let j = if draws.is_empty() { None } else { Some(*rng.pick(&draws)) };
+                evs.push(EvSpec::Resp(j, rng.chance(1, 2), true));
+            }
+        }
+    }
+    History { quiet: rng.chance(1, 4), imgs, evs }
+}
+
+/// `n` distinct tiny images: the first is drawn, then all the others, then the first again (and a few of the
+/// early ones): nothing may be transmitted twice however many images the handler has seen
+fn long_history(n: usize, seed: u64) -> History {
+    let imgs: Vec<ImgSpec> = (0..n)
+        .map(|i| {
+            let mut px = vec![i as u8, (i >> 8) as u8, (seed as u8) ^ 0x33, 255];
+            if i % 2 == 1 {
+                px.extend_from_slice(&[(i >> 3) as u8, 7, i as u8, 1]);
+            }
+            ImgSpec { ph: 1, pw: px.len() / 4, data: px, transpose: false, crop: None, via: (i % 2) as u8 }
+        })
+        .collect();
+    let mut evs: Vec<EvSpec> = (0..n).map(|i| EvSpec::Draw(i, i % 7, i % 5)).collect();
+    evs.extend([EvSpec::Draw(0, 0, 0), EvSpec::Draw(1, 3, 3), EvSpec::Draw(n / 2, 1, 1), EvSpec::Draw(n - 1, 2, 2)]);
+    // error responses for an early and for a late image, then both again
+    evs.extend([EvSpec::Resp(Some(0), true, true), EvSpec::Resp(Some(n - 1), true, true), EvSpec::Draw(0, 4, 4), EvSpec::Erase(0, Some((0, 0)))]);
+    History { quiet: false, imgs, evs }
+}
+
 /// many tiny images and many events on one handler (growth of the transmitted set)
 fn gen_big_history(rng: &mut Rng) -> History {
     let nimg = 10 + rng.below(41) as usize;
@@ -1218,7 +1344,8 @@ fn cut_points(bytes: &[u8]) -> Vec<usize> {
 
 fn dry_run(hist: &History) -> Option<Vec<Vec<u8>>> {
     let imgs: Vec<Image> = guarded(|| hist.imgs.iter().map(|s| s.build()).collect::<Vec<_>>()).ok()?;
-    Some(run_impl(hist, &imgs).ok()?.into_iter().map(|s| s.bytes).collect())
+    let mut imgs = imgs;
+    Some(run_impl(hist, &mut imgs).ok()?.into_iter().map(|s| s.bytes).collect())
 }
 
 /// give one or two events of `base` a writer that fails somewhere interesting, then draw / erase the images
@@ -1504,6 +1631,16 @@ fn corpus() -> Vec<History> {
     for (ph, pw) in [(50, 50), (1, 2500), (64, 64)] {
         v.push(History { quiet: false, imgs: vec![gradient(ph, pw)], evs: vec![d(0, 2, 5), EvSpec::Resp(Some(0), true, true), e(0, 2, 5)] });
     }
+    // crops derived from an image the handler already knows (drawn / erased / only hashed by an erase), and one
+    // derived before; a crop of a crop; the full-size crop (same content: shares the transmission)
+    let dv = |k, r0, r1, c0, c1| EvSpec::Derive(k, r0, r1, c0, c1);
+    v.push(History { quiet: false, imgs: vec![gradient(4, 5)], evs: vec![
+        dv(0, 0, 2, 0, 2), d(0, 1, 1), dv(0, 1, 3, 1, 4), d(2, 2, 2), d(1, 3, 3), dv(2, 0, 1, 1, 3), d(3, 4, 4),
+        dv(0, 0, 4, 0, 5), d(4, 5, 5), e(2, 2, 2), e(0, 1, 1), e(3, 4, 4), EvSpec::Erase(1, None)] });
+    v.push(History { quiet: false, imgs: vec![gradient(3, 3)], evs: vec![
+        e(0, 1, 1), dv(0, 0, 1, 0, 3), d(1, 1, 1), d(0, 1, 1), e(1, 1, 1), EvSpec::Resp(Some(2), true, true)] });
+    // 320 distinct images on one handler, then the first ones again
+    v.push(long_history(320, 1));
     // twenty images, all drawn, then all drawn again: nothing may be transmitted a second time
     let many: Vec<ImgSpec> = (0..20).map(|i| solid(1, 2, [i as u8, 1, 2, 3])).collect();
     let mut evs: Vec<EvSpec> = (0..20).map(|i| d(i, i % 5, i % 3)).collect();
@@ -1625,7 +1762,11 @@ fn main() {
         let n = if cfg.thorough { 60_000 } else { 4_000 };
         for i in 0..n {
             let max = if i % 4 == 0 { 40 } else { 12 };
-            let h = if i % 10 == 1 {
+            let h = if i % 10 == 3 {
+                gen_derive_history(&mut rng)
+            } else if cfg.thorough && i % 2000 == 17 {
+                long_history(300 + rng.below(500) as usize, rng.next())
+            } else if i % 10 == 1 {
                 gen_twin_history(&mut rng)
             } else if i % 40 == 7 {
                 gen_big_history(&mut rng)
@@ -1653,5 +1794,5 @@ fn main() {
         run.out.extra("image_id_collisions_excused", json!(n_coll.min(2)));
     }
     id_zero_search(&mut out, cfg.thorough);
-    out.finish("(one history in 12 additionally gives one or two of its events a writer that fails after k bytes — k = 0, 1, inside a header, around the end of every command, inside every payload, all but the last byte — and then draws / erases the images concerned again through working writers; every k for the draw, erase and re-draw of a 1x1 image and the command boundaries of a 3-chunk image are run on every seed) histories of draw / erase / terminal-response (own, made-up and foreign placement ids >= 2^32 or 0) / other events on one KittyImageHandler; one history in 10 draws 2-4 different memory layouts of one pixel content (owned copy, window of a larger parent, stored transposed, transposed twice), one in 40 has 10-50 tiny images and 50-130 events, thorough: one in 200 has an image of 4+ chunks (thin 1-3 x 2400-3600 or 49-64 squared); the rest over 1-3 images (0x0 .. 40x40, random / constant / gradient pixels, plain, cropped, transposed, transposed+cropped, built by Image::new(view) or Image::from(..).crop(..)); positions from a recurring pool incl. (0,0), (0,65535), (65535,0), swapped pairs, random below 65536; non-trivial = at least one draw of a non-empty image; distinct by the bytes the implementation wrote; plus the corner case (65535,65535) and a search over 1x1 images for image id 0");
+    out.finish("(one history in 12 additionally gives one or two of its events a writer that fails after k bytes — k = 0, 1, inside a header, around the end of every command, inside every payload, all but the last byte — and then draws / erases the images concerned again through working writers; every k for the draw, erase and re-draw of a 1x1 image and the command boundaries of a 3-chunk image are run on every seed) histories of draw / erase / terminal-response (own, made-up and foreign placement ids >= 2^32 or 0) / other events on one KittyImageHandler; one history in 10 draws 2-4 different memory layouts of one pixel content (owned copy, window of a larger parent, stored transposed, transposed twice), one in 10 takes crops of an image DURING the history (before and after the handler has drawn / erased it) and draws / erases them, one history of every run has 320 distinct tiny images drawn on one handler before the first ones come again (thorough: 30 more with 300-800), one in 40 has 10-50 tiny images and 50-130 events, thorough: one in 200 has an image of 4+ chunks (thin 1-3 x 2400-3600 or 49-64 squared); the rest over 1-3 images (0x0 .. 40x40, random / constant / gradient pixels, plain, cropped, transposed, transposed+cropped, built by Image::new(view) or Image::from(..).crop(..)); positions from a recurring pool incl. (0,0), (0,65535), (65535,0), swapped pairs, random below 65536; non-trivial = at least one draw of a non-empty image; distinct by the bytes the implementation wrote; plus the corner case (65535,65535) and a search over 1x1 images for image id 0");
 }
